@@ -368,7 +368,8 @@ def inverse_rule(rep, prog, full):
                         taken.append(k_)
                         pairdec[key_] = k_
                     return ("symop", "abs", v, None) if pairdec[key_] == 0 else None
-                if (signed_entry(a_) and (is_mag(b_) or signed_entry(b_))) or (signed_entry(b_) and is_mag(a_)):
+                zero_test = op in ("Eq", "Ne") and (a_ == zero or b_ == zero)        # `pivot != 0.0`: recorded below, not a sign question
+                if not zero_test and ((signed_entry(a_) and (is_mag(b_) or signed_entry(b_))) or (signed_entry(b_) and is_mag(a_))):
                     ma = as_mag(a_) if signed_entry(a_) else a_
                     mb = as_mag(b_) if signed_entry(b_) else b_
                     if ma is None or mb is None:
